@@ -788,7 +788,6 @@ func parksOn(in ssa.Instruction) string {
 	return ""
 }
 
-
 // drainsOnly: in helper f the connection parameter idx is only observed (RemoteAddr / LocalAddr) or read to
 // exhaustion into io.Discard - nothing else touches it.
 func drainsOnly(f *ssa.Function, idx int) bool {
